@@ -151,8 +151,9 @@ type Machine struct {
 	initStarted  bool
 	worklist     [][]decision
 
-	AllOrders   bool // fork over map iteration orders (up to 4 keys)
-	TrackShared bool
+	AllOrders       bool // fork over map iteration orders (up to 4 keys)
+	OrderOncePerMap bool // with AllOrders: one order per map object and path (repeated ranges reuse it)
+	TrackShared     bool
 
 	ranges      map[*smt.Term][2]*big.Int
 	assumptions map[string]bool
